@@ -1,22 +1,48 @@
 (* Property C07 — Parallel execution is unobservable.
-   Only the pinned statements; proofs in Proofs/ParOk.v and Proofs/ParSitesOk.v.
+   Only the pinned statements; proofs in Proofs/ParOk.v, Proofs/ParSitesOk.v, Proofs/ParFnsOk.v.
 
-   PARTIAL BY NATURE.  What is proved: a model of the rayon fragment the crate
-   uses (Model/Par.v: indexed source, `map f`, `collect` into a Vec; a schedule
-   is the order in which the work items are executed) returns the same vector
-   for every schedule and every pure f, and "gather, then combine sequentially"
-   equals the serial loop for an arbitrary (non-associative) combine — so both
-   paths perform every floating-point operation in the same order.  The
-   hypotheses of the model (indexed source, only `map`, collect into Vec, no
-   shared mutable state, no unsafe, no interior mutability in the crate) are
-   re-extracted from the source and re-proved on every run (C07_par_sites_ok).
-   What is NOT proved: rayon's implementation of the indexed collect, real work
-   stealing and memory ordering, and that the closures the crate passes are
-   pure functions of (&Graph, item) — supported by "Graph has no interior
-   mutability, the crate has no unsafe" and by the bit-for-bit exploration on
-   the implementation (tools/p_par.py), which is testing, not proof. *)
-From Coq Require Import String List Bool ZArith Sorting.Permutation.
-From GV Require Import Base.Outcome Model.Par Spec.ParSiteDef Gen.ParSites Proofs.ParOk Proofs.ParSitesOk.
+   PART 1 (generic).  A model of the rayon fragment the crate uses (Model/Par.v: indexed
+   source, `map f`, `collect` into a Vec; a schedule is the order in which the work items are
+   executed) returns the same vector for every schedule and every pure f, and "gather, then
+   combine sequentially" equals the serial loop for an arbitrary (non-associative) combine.
+   The hypotheses of the model (indexed source, only `map`, collect into Vec, no shared
+   mutable state, no unsafe, no interior mutability in the crate) are re-extracted from the
+   source and re-proved on every run (C07_par_sites_ok).
+
+   PART 2 (per function).  Model/ParFns.v transcribes BOTH arms of `match parallel` of
+   multi_source, all_pairs (all_pairs_iter / all_pairs_par_iter), get_all_shortest_paths_involving,
+   betweenness_centrality and closeness_centrality on top of the per-source functions of the
+   algorithm models (Model/Dijkstra.v, Model/Brandes.v, Model/Closeness.v), with the arm and the
+   schedule as an argument.  For every graph state, every argument tuple and EVERY schedule
+   (permutation of the work items) the parallel arm returns exactly the outcome of the serial
+   arm — Ok values, Err kinds and panics alike — and both equal the algorithm model that the
+   correspondence checks of C04 / C05 / C06 tie to the code (`*_sched_unobservable`: for every
+   thread count, through the `number_of_nodes() > 20 && current_num_threads() > 1` switch).
+   The proofs never unfold the per-source functions nor the combine functions
+   (accumulate_betweenness, HashMap insert), so the same fold order — hence the same value —
+   holds in any number structure (C07_loop_shape_any_combine is the statement with the
+   combine universally quantified).
+   Failing work items (`.unwrap()` inside the closures): rayon::join re-raises the panic of its
+   FIRST closure when both panic, an indexed split is join(lower half, upper half), a leaf runs
+   its items in index order — so the region fails with the failure of the lowest failing index,
+   like the serial loop (C07_region_plan_semantics: every fork-join plan).  The `_pessimistic`
+   theorems do not rely on that rule ("the failing item executed first wins"): the arms then
+   still agree whenever the failing items fail alike — proved for all_pairs / involving on every
+   well-formed adjacency (the only item failure is the unwrap at dijkstra.rs:172), for
+   betweenness always, for multi_source / closeness under the stated hypothesis (which holds
+   when the per-source calls succeed: C07_multi_source_items_ok via C04).
+
+   What is NOT proved: rayon's implementation of the indexed collect and of join, real work
+   stealing and memory ordering, and that the Rust closures are the pure functions of
+   (&Graph, item) the models say — supported by "Graph has no interior mutability, the crate
+   has no unsafe" (re-proved per run) and by the bit-for-bit exploration on the implementation
+   (tools/p_par.py), which is testing, not proof. *)
+From Coq Require Import String List Bool ZArith QArith Sorting.Permutation.
+From GV Require Import Base.Outcome Base.AMap Model.GState Model.Creation Model.Query Model.Par.
+From GV Require Import Model.Dijkstra Model.Cent Model.Brandes Model.Closeness Model.ParFns.
+From GV Require Import Spec.ParSiteDef Spec.ShortestPathDef Spec.ShortestPathCheck Gen.ParSites.
+From GV Require Import Proofs.WFDefs Proofs.DijkstraModelOk Proofs.DijkstraNamesOk.
+From GV Require Import Proofs.ParOk Proofs.ParSitesOk Proofs.ParFnsOk.
 Import ListNotations.
 Open Scope string_scope.
 
@@ -64,3 +90,189 @@ Proof. exact par_sites_ok. Qed.
 Theorem C07_par_sites_modelled :
   forall s, In s par_sites -> exists k, site_shape s = ShapeIndexedMapCollect k.
 Proof. exact par_sites_modelled. Qed.
+
+(* ====================================================================== PART 2: per function *)
+
+(* ---- the region with work items that can fail (unwrap / index panics inside the closure) ---- *)
+(* every schedule: the region returns what the sequential map/collect returns, failures included *)
+Theorem C07_region_with_failing_items : forall (X Y : Type) (f : X -> outcome Y) (pi : list nat) (xs : list X),
+  Permutation pi (seq 0 (length xs)) -> gather_par pi f xs = gather_seq f xs.
+Proof. exact @gather_par_eq_seq. Qed.
+
+(* every fork-join plan under rayon::join's rule "the first closure's panic wins" *)
+Theorem C07_region_plan_semantics : forall (X Y : Type) (f : X -> outcome Y) (p : plan) (xs : list X),
+  run_plan p f xs 0 (length xs) = gather_seq f xs.
+Proof. exact @run_plan_eq_seq. Qed.
+
+(* gather under any schedule, then `for y in ys { combine(&mut acc, y) }` = the serial loop
+   `for x in xs { combine(&mut acc, f(x)) }` — for ANY combine, any accumulator type *)
+Theorem C07_loop_shape_any_combine : forall (X Y B : Type) (f : X -> outcome Y) (combine : B -> Y -> B)
+                                            (pi : list nat) (xs : list X) (init : B),
+  Permutation pi (seq 0 (length xs)) ->
+  loop_arm (Rayon pi) f combine xs init = loop_arm Serial f combine xs init.
+Proof. exact @loop_arm_par_eq_serial. Qed.
+
+(* ---- dijkstra::multi_source ---- *)
+Theorem C07_multi_source_parallel_eq_serial :
+  forall (T A : Type) (teqb : T -> T -> bool) (pi : list nat) (g : gstate T A) (weighted : bool)
+         (sources : list T) (target : option T) (cutoff : option Q) (first_only with_paths : bool),
+  Permutation pi (seq 0 (length sources)) ->
+  multi_source_arm teqb (Rayon pi) g weighted sources target cutoff first_only with_paths =
+  multi_source_arm teqb Serial g weighted sources target cutoff first_only with_paths.
+Proof. exact @multi_source_parallel_eq_serial. Qed.
+
+(* whatever the thread count and the schedule, the thresholded function is the model of C04 *)
+Theorem C07_multi_source_sched_unobservable :
+  forall (T A : Type) (teqb : T -> T -> bool) (threads : nat) (pi : list nat) (threads' : nat) (g : gstate T A)
+         (weighted : bool) (sources : list T) (target : option T) (cutoff : option Q) (first_only with_paths : bool),
+  Permutation pi (seq 0 (length sources)) ->
+  multi_source_sched teqb threads pi g weighted sources target cutoff first_only with_paths =
+  multi_source teqb threads' g weighted sources target cutoff first_only with_paths.
+Proof. exact @multi_source_sched_unobservable. Qed.
+
+(* ---- dijkstra::all_pairs (all_pairs_iter / all_pairs_par_iter) ---- *)
+Theorem C07_all_pairs_parallel_eq_serial :
+  forall (T A : Type) (teqb : T -> T -> bool) (pi : list nat) (g : gstate T A) (weighted : bool)
+         (target : option T) (cutoff : option Q) (first_only with_paths : bool),
+  Permutation pi (seq 0 (number_of_nodes g)) ->
+  all_pairs_arm teqb (Rayon pi) g weighted target cutoff first_only with_paths =
+  all_pairs_arm teqb Serial g weighted target cutoff first_only with_paths.
+Proof. exact @all_pairs_parallel_eq_serial. Qed.
+
+Theorem C07_all_pairs_sched_unobservable :
+  forall (T A : Type) (teqb : T -> T -> bool) (threads : nat) (pi : list nat) (threads' : nat) (g : gstate T A)
+         (weighted : bool) (target : option T) (cutoff : option Q) (first_only with_paths : bool),
+  Permutation pi (seq 0 (number_of_nodes g)) ->
+  all_pairs_sched teqb threads pi g weighted target cutoff first_only with_paths =
+  all_pairs teqb threads' g weighted target cutoff first_only with_paths.
+Proof. exact @all_pairs_sched_unobservable. Qed.
+
+(* ---- dijkstra::get_all_shortest_paths_involving (its rayon path is all_pairs') ---- *)
+Theorem C07_involving_parallel_eq_serial :
+  forall (T A : Type) (teqb : T -> T -> bool) (pi : list nat) (g : gstate T A) (node_name : T) (weighted : bool),
+  Permutation pi (seq 0 (number_of_nodes g)) ->
+  get_all_shortest_paths_involving_arm teqb (Rayon pi) g node_name weighted =
+  get_all_shortest_paths_involving_arm teqb Serial g node_name weighted.
+Proof. exact @involving_parallel_eq_serial. Qed.
+
+Theorem C07_involving_sched_unobservable :
+  forall (T A : Type) (teqb : T -> T -> bool) (threads : nat) (pi : list nat) (threads' : nat) (g : gstate T A)
+         (node_name : T) (weighted : bool),
+  Permutation pi (seq 0 (number_of_nodes g)) ->
+  get_all_shortest_paths_involving_sched teqb threads pi g node_name weighted =
+  get_all_shortest_paths_involving teqb threads' g node_name weighted.
+Proof. exact @involving_sched_unobservable. Qed.
+
+(* ---- betweenness_centrality ---- *)
+Theorem C07_betweenness_parallel_eq_serial :
+  forall (T A : Type) (pi : list nat) (lw : bool) (g : gstate T A) (weighted normalized : bool),
+  Permutation pi (seq 0 (number_of_nodes g)) ->
+  betweenness_centrality_arm (Rayon pi) lw g weighted normalized =
+  betweenness_centrality_arm Serial lw g weighted normalized.
+Proof. exact @betweenness_parallel_eq_serial. Qed.
+
+(* the model of C05 ([betweenness_centrality], whose parallel path was written schedule-free) *)
+Theorem C07_betweenness_sched_unobservable :
+  forall (T A : Type) (threads : nat) (pi : list nat) (lw : bool) (g : gstate T A) (weighted normalized : bool),
+  Permutation pi (seq 0 (number_of_nodes g)) ->
+  betweenness_centrality_sched threads pi lw g weighted normalized =
+  betweenness_centrality lw g weighted normalized.
+Proof. exact @betweenness_sched_unobservable. Qed.
+
+(* ---- closeness_centrality ---- *)
+(* the work items are the node indices of `the_graph` (the reversed copy when directed) *)
+Theorem C07_closeness_parallel_eq_serial :
+  forall (T A : Type) (teqb tltb : T -> T -> bool) (pi : list nat) (lw : bool) (g : gstate T A)
+         (weighted wf_improved : bool),
+  (forall tg, closeness_graph teqb tltb g = Ok tg -> Permutation pi (seq 0 (number_of_nodes tg))) ->
+  closeness_centrality_arm teqb tltb (Rayon pi) lw g weighted wf_improved =
+  closeness_centrality_arm teqb tltb Serial lw g weighted wf_improved.
+Proof. exact @closeness_parallel_eq_serial. Qed.
+
+(* on a coherent graph state (every state a mutation history can reach: C01) `the_graph` has the
+   nodes of the graph, so the schedule is a permutation of 0..number_of_nodes-1 *)
+Theorem C07_closeness_parallel_eq_serial_WF :
+  forall (T A : Type) (teqb tltb : T -> T -> bool),
+  (forall x y, teqb x y = true <-> x = y) ->
+  (forall x y, tltb x y = false -> tltb y x = false -> x = y) ->
+  forall (pi : list nat) (lw : bool) (g : gstate T A) (weighted wf_improved : bool),
+  @WF T A teqb tltb g -> Permutation pi (seq 0 (number_of_nodes g)) ->
+  closeness_centrality_arm teqb tltb (Rayon pi) lw g weighted wf_improved =
+  closeness_centrality_arm teqb tltb Serial lw g weighted wf_improved.
+Proof. exact @closeness_parallel_eq_serial_WF. Qed.
+
+(* the model of C06 returns the (name, cc) pairs; the arms insert them into the HashMap *)
+Theorem C07_closeness_sched_unobservable :
+  forall (T A : Type) (teqb tltb : T -> T -> bool) (threads : nat) (pi : list nat) (lw : bool) (g : gstate T A)
+         (weighted wf_improved : bool),
+  (forall tg, closeness_graph teqb tltb g = Ok tg -> Permutation pi (seq 0 (number_of_nodes tg))) ->
+  closeness_centrality_sched teqb tltb threads pi lw g weighted wf_improved =
+  (do l <- closeness_centrality teqb tltb lw g weighted wf_improved; Ok (collect_map teqb l)).
+Proof. exact @closeness_sched_unobservable. Qed.
+
+(* ---- without rayon::join's panic rule: "the failing item executed first aborts the region" ---- *)
+(* success and the value on success never depend on the rule; a failure is that of SOME failing
+   item; and the region equals the serial one as soon as the failing items fail alike *)
+Theorem C07_pessimistic_region :
+  forall (X Y : Type) (f : X -> outcome Y) (pi : list nat) (xs : list X),
+  Permutation pi (seq 0 (length xs)) ->
+  (forall ys, gather_seq f xs = Ok ys -> gather_abort pi f xs = Ok ys) /\
+  (is_ok (gather_seq f xs) = false ->
+   exists x, In x xs /\ is_ok (f x) = false /\ gather_abort pi f xs = as_failure (f x)) /\
+  (fail_alike f xs -> gather_abort pi f xs = gather_seq f xs).
+Proof. exact @pessimistic_region. Qed.
+
+Theorem C07_all_pairs_pessimistic :
+  forall (T A : Type) (teqb : T -> T -> bool) (pi : list nat) (g : gstate T A) (weighted : bool)
+         (target : option T) (cutoff : option Q) (first_only with_paths : bool),
+  wf_adj g -> Permutation pi (seq 0 (number_of_nodes g)) ->
+  all_pairs_arm teqb (RayonAbort pi) g weighted target cutoff first_only with_paths =
+  all_pairs_arm teqb Serial g weighted target cutoff first_only with_paths.
+Proof. exact @all_pairs_abort_eq_serial. Qed.
+
+Theorem C07_involving_pessimistic :
+  forall (T A : Type) (teqb : T -> T -> bool) (pi : list nat) (g : gstate T A) (node_name : T) (weighted : bool),
+  wf_adj g -> Permutation pi (seq 0 (number_of_nodes g)) ->
+  get_all_shortest_paths_involving_arm teqb (RayonAbort pi) g node_name weighted =
+  get_all_shortest_paths_involving_arm teqb Serial g node_name weighted.
+Proof. exact @involving_abort_eq_serial. Qed.
+
+Theorem C07_betweenness_pessimistic :
+  forall (T A : Type) (pi : list nat) (lw : bool) (g : gstate T A) (weighted normalized : bool),
+  Permutation pi (seq 0 (number_of_nodes g)) ->
+  betweenness_centrality_arm (RayonAbort pi) lw g weighted normalized =
+  betweenness_centrality_arm Serial lw g weighted normalized.
+Proof. exact @betweenness_abort_eq_serial. Qed.
+
+Theorem C07_multi_source_pessimistic :
+  forall (T A : Type) (teqb : T -> T -> bool) (pi : list nat) (g : gstate T A) (weighted : bool)
+         (sources : list T) (target : option T) (cutoff : option Q) (first_only with_paths : bool),
+  Permutation pi (seq 0 (length sources)) ->
+  fail_alike (multi_source_item teqb g weighted target cutoff first_only with_paths) sources ->
+  multi_source_arm teqb (RayonAbort pi) g weighted sources target cutoff first_only with_paths =
+  multi_source_arm teqb Serial g weighted sources target cutoff first_only with_paths.
+Proof. exact @multi_source_abort_eq_serial. Qed.
+
+(* the hypothesis of the previous theorem holds (no item fails) under the hypotheses of
+   C04_model_single_source_names: coherent indexes, non-negative costs, listed nodes present *)
+Theorem C07_multi_source_items_ok :
+  forall (T A : Type) (teqb : T -> T -> bool),
+  (forall a b, teqb a b = true <-> a = b) ->
+  forall (g : gstate T A) (weighted : bool) (sources : list T) (target : option T) (cutoff : option Q)
+         (first_only with_paths : bool),
+  wf_adj g -> names_wf teqb g -> nonneg (wgraph_of weighted (successors_vec g)) ->
+  (forall s, In s sources -> exists si, lookup teqb s (nodes_map g) = Some si) ->
+  (forall t, target = Some t -> exists i, lookup teqb t (nodes_map g) = Some i) ->
+  cutoff_exceeded cutoff 0 = false ->
+  fail_alike (multi_source_item teqb g weighted target cutoff first_only with_paths) sources.
+Proof. exact @multi_source_items_ok. Qed.
+
+Theorem C07_closeness_pessimistic :
+  forall (T A : Type) (teqb tltb : T -> T -> bool) (pi : list nat) (lw : bool) (g : gstate T A)
+         (weighted wf_improved : bool),
+  (forall tg, closeness_graph teqb tltb g = Ok tg -> Permutation pi (seq 0 (number_of_nodes tg))) ->
+  (forall tg ad, closeness_graph teqb tltb g = Ok tg -> conv_adj weighted (successors_vec tg) = Some ad ->
+     fail_alike (closeness_one lw weighted wf_improved tg ad (number_of_nodes tg)) (seq 0 (number_of_nodes tg))) ->
+  closeness_centrality_arm teqb tltb (RayonAbort pi) lw g weighted wf_improved =
+  closeness_centrality_arm teqb tltb Serial lw g weighted wf_improved.
+Proof. exact @closeness_abort_eq_serial. Qed.
